@@ -81,4 +81,49 @@ CLAIMS = {
         "note": COMMON_NOTE,
         "technique": 'path typestate with branch events (guard dominance), shape checks',
     },
+    "C05": {
+        "text": 'Decides: no exception other than SkipNode can leave any handler of the type-info visitor or of a registered rule (explicit raises through resolved calls, reasons kept for unreachable defensive raises); enter/leave pairs of stack-keeping visitors push and pop the same multiset on every path; no dead handlers; type-info first in the chain; SkipNode only after an error where an earlier visitor keeps state for that kind; definite assignment over the CFG (incl. exception edges) of every function in execution/** and utilities/**. Does not decide validator/executor soundness.',
+        "note": COMMON_NOTE,
+        "technique": 'interprocedural may-raise summaries, typestate (stack balance) over CFG paths, definite-assignment dataflow',
+    },
+    "C06": {
+        "text": "Decides: the 26 rule classes are registered/exported and every specification rule has its class; directive-location and node-kind tables used by rules agree with the parser's and the AST classes (locations, directive-bearing nodes, value kinds); fragment closures iterate to a fixpoint; variable usages are recorded per occurrence; type references the visitor does not traverse are reported by a rule. Does not decide rule-by-rule equivalence with the specification nor order invariance in general.",
+        "note": COMMON_NOTE,
+        "technique": 'table/registry agreement against reference tables, fixpoint-construct recognition, cross-module coverage (visitor traversal x rule handlers)',
+    },
+    "C07": {
+        "text": "Decides: the obligation table (null for NonNull, defaults for absent members, required members, python_name keys, enum mapping, list wrapping, unknown keys) holds structurally on each of the three coercion routes; coerce_int's accepted interval computed from its guard equals [-2^31, 2^31-1]; literal-kind tables of the five specified scalars; scalar error conversion. Does not decide equality of delivered values for all inputs nor custom scalars.",
+        "note": COMMON_NOTE,
+        "technique": 'sibling cross-check of three routes, interval evaluation of the range guard, table agreement',
+    },
+    "C11": {
+        "text": 'Decides: every kind dispatch (builder, extender, schema visitor, SDL printer, validator) covers the six kinds; each builder reads every content slot of its definition node; the kind graph of eager (non-lazy) re-entries into the memoised builders has no cycle before the memo write; types carried into a new Schema are filtered only by justified predicates; only library errors escape build_schema/extend_schema (explicit raises), no exception constructed without raise. Does not decide attribute-by-attribute equality with the declaration.',
+        "note": COMMON_NOTE,
+        "technique": 'node-shape agreement, call-graph kind-cycle detection, may-raise summaries, flow of registry lists',
+    },
+    "C12": {
+        "text": 'Decides: everything reachable from ASTSchemaPrinter.__call__ writes no long-lived state and reads no module-level single-use iterator; defaults and deprecation reasons are rendered through value->AST->printer; print_type covers all kinds and printers read all printable attributes; no set iteration feeds output, definition lists sorted by name. Does not decide the round trip.',
+        "note": COMMON_NOTE,
+        "technique": 'effect/iterator-hygiene scan over the print call graph, attribute-read coverage',
+    },
+    "C13": {
+        "text": 'Decides: every validate_* method is reached and every kind dispatched; the six member loops agree on name checks, duplicate detection and input/output predicates; validator methods never raise and validate_schema raises iff errors; every resolver-assigning Schema method resets the memoised verdict on every path after the write; the invalidation flag of type/directive replacement accumulates. Does not decide accept/reject correctness of each rule.',
+        "note": COMMON_NOTE,
+        "technique": 'sibling cross-check of member loops, typestate over CFG paths (write then invalidate), flag-accumulation pattern',
+    },
+    "C14": {
+        "text": 'Decides: every rebuild site passes every constructor parameter (nothing silently dropped); no visitor applied to a clone assigns attributes of member objects the shallow clone shares with its source; merge_resolvers and Schema.clone carry every attribute/slot; every type-reference attribute has a healing site; registry conservation on extension. Does not decide closure of the resulting type graph for all schemas.',
+        "note": COMMON_NOTE,
+        "technique": 'copy-constructor completeness, ownership/aliasing check (shared members x in-place writers), slot coverage',
+    },
+    "C15": {
+        "text": "Decides: introspection enums equal the parser's location table and the eight type kinds, kind resolver maps each class to its kind; default-resolved meta fields name attributes that exist on every described class; default values formatted by the SDL printer's pipeline; the disable switch confined to the three meta fields and consulted first; includeDeprecated filters have the specified truth table; meta resolvers call nothing that raises library errors. Does not decide full equality of the introspection result with the schema.",
+        "note": COMMON_NOTE,
+        "technique": 'table agreement, attribute existence over MRO, truth tables, may-raise of resolver callees',
+    },
+    "C20": {
+        "text": 'Decides: the input/output compatibility predicates do not cross polarity, handle Named/List/NonNull, relax/tighten only in the allowed direction and are used at the right sites; every change class is produced and every differ registered; severity table (removals/retyping BREAKING, required additions BREAKING, min_severity filter); no yielding loop over a set; the three default comparisons agree and have the specified truth table. Does not decide that no-breaking-change implies every old operation stays valid.',
+        "note": COMMON_NOTE,
+        "technique": 'call-graph separation, registry coverage, severity table agreement, truth tables',
+    },
 }
